@@ -1,5 +1,5 @@
 #!/bin/bash
-for seed in 1 2 3 4 5 6 7 8 9 10 11 12 13 14 15 16; do
+for seed in ${SWEEP_SEEDS:-1 2 3 4 5 6 7 8 9 10 11 12 13 14 15 16}; do
   for p in C07 C08; do
     VERIF_SEED=$seed /venv/bin/python check.py $p --tier quick --no-evidence > sweep_${p}_${seed}.log 2>&1
     echo "seed=$seed $p rc=$? $(tail -n 1 sweep_${p}_${seed}.log)"
